@@ -43,28 +43,24 @@ def run(chk):
 
 
 def builder_obligations(chk, P, rule, fs=False):
-    mod = "atsim.potentials.config._eam_potential_builder"
-    ci = P.cls(mod, "EAM_Potential_Builder_FS" if fs else "EAM_Potential_Builder")
-    I = W.make_interp(P)
-    b = InstV(ci)
-    b.attrs["_reference_data"] = W.param("rd")
-    embed = DictV()
-    dens = DictV()
+    """EAM_Potential_Builder(cp, forms, modifiers, reference_data=rd).eam_potentials on a one-species model (sa/eamrules.py)"""
+    from .. import eamrules as E
+    ci = P.cls(E.BUILDER_MOD, "EAM_Potential_Builder_FS" if fs else "EAM_Potential_Builder")
+    site = ci.lookup("eam_potentials").site()
     sp = Const("Xx")
-    embed.items[sp.key()] = (sp, W.param("F_Xx"))
-    dens.items[sp.key()] = (sp, W.param("rho_Xx"))
-    pot = W.run_method(I, b, "_create_eam_potential", [sp, embed, dens])
-    site = ci.site_of("_create_eam_potential")
-    if not (isinstance(pot, InstV) and pot.ci.name == "EAMPotential"):
-        raise AnalysisError("_create_eam_potential did not build an EAMPotential: %r" % (pot,))
-
-    def rd(prop):
-        return Opaque(("call", ("attr", ("param", "rd"), "get"), (sp.key(), Const(prop).key())))
-    want = {"species": sp, "atomicNumber": rd("atomic_number"), "mass": rd("atomic_mass"),
-            "embeddingFunction": W.param("F_Xx"), "electronDensityFunction": W.param("rho_Xx"),
-            "latticeConstant": rd("lattice_constant"), "latticeType": rd("lattice_type")}
+    embed = [("Xx", W.param("F_Xx"))]
+    dens = [("Xx", W.param("rho_Xx"))]
+    out = E.build(P, W.make_interp, False, embed, dens)
+    if out[1] != "ok" or "Xx" not in out[2]:
+        chk.ob(rule, "a one-species EAM model builds one EAMPotential", False, site=site, found=out[2] if out[1] == "raise" else out[3],
+               expect="EAMPotential(Xx)", key="%s|ctor|builds" % rule)
+        return
+    I, pot = out[0], out[2]["Xx"]
+    want = {"species": sp, "atomicNumber": E.refvalue(sp, "atomic_number"), "mass": E.refvalue(sp, "atomic_mass"),
+            "embeddingFunction": E.built(W.param("F_Xx")), "electronDensityFunction": E.built(W.param("rho_Xx")),
+            "latticeConstant": E.refvalue(sp, "lattice_constant"), "latticeType": E.refvalue(sp, "lattice_type")}
     for attr, w in want.items():
-        got = pot.attrs.get(attr)
+        got = I.getattr(pot, attr)
         ok = got is not None and got.key() == w.key()
         chk.ob(rule, "EAMPotential.%s receives %s" % (attr, w), ok, site=site, found=got, expect=w, key="%s|ctor|%s" % (rule, attr))
 
@@ -77,40 +73,24 @@ def builder_obligations(chk, P, rule, fs=False):
            isinstance(lc, Num) and lc.const() == 0 and isinstance(lt, Const) and lt.v == "fcc", site=ecls.lookup("__init__").site(),
            found=(lc, lt), expect="(0.0, 'fcc')", key="%s|api-defaults" % rule)
 
-    # failure behaviour of the four getters
-    rde = P.cls("atsim.potentials.referencedata._reference_data", "Reference_Data_Exception")
-    cfg = P.cls("atsim.potentials.config._common", "ConfigurationException")
-
-    class Raiser(V):
-        def key(self):
-            return ("raiser",)
-
-    for meth, expect in (("_get_mass", "config-error"), ("_get_atomic_number", "config-error"),
-                         ("_get_lattice_constant", 0), ("_get_lattice_type", "fcc")):
-        I2 = W.make_interp(P)
-        b2 = InstV(ci)
-        rdv = InstV(P.cls("atsim.potentials.referencedata._reference_data", "Reference_Data"))
-        b2.attrs["_reference_data"] = rdv
-
-        def failing_get(i, fv, a, k, n):
-            raise RaiseSignal(ExcV(ClassV(P.cls("atsim.potentials.referencedata._reference_data", "Unknown_Species_Exception")), []), n)
-        I2.hooks["atsim.potentials.referencedata._reference_data:Reference_Data.get"] = failing_get
-        try:
-            r = W.run_method(I2, b2, meth, [sp])
-            outcome = r
-        except RaiseSignal as e:
-            outcome = e.exc
+    # reference data without an entry
+    for prop, attr, expect in (("atomic_mass", "mass", "config-error"), ("atomic_number", "atomicNumber", "config-error"),
+                               ("lattice_constant", "latticeConstant", 0), ("lattice_type", "latticeType", "fcc")):
+        o = E.build(P, W.make_interp, False, embed, dens, missing=(prop,))
         if expect == "config-error":
-            ok = isinstance(outcome, ExcV) and isinstance(outcome.cls, ClassV) and outcome.cls.ci.is_subclass_of(cfg)
+            ok = o[1] == "raise" and E.is_config_error(P, o[2])
+            found = o[2] if o[1] == "raise" else "accepted"
             exp = "raise ConfigurationException"
-        elif expect == 0:
-            ok = isinstance(outcome, Num) and outcome.const() == 0
-            exp = "0.0 (documented default)"
         else:
-            ok = isinstance(outcome, Const) and outcome.v == "fcc"
-            exp = "'fcc' (documented default)"
-        chk.ob(rule, "%s when the reference data has no entry" % meth, ok, site=ci.lookup(meth).site(), found=outcome, expect=exp,
-               key="%s|missing|%s" % (rule, meth))
+            found = o[0].getattr(o[2]["Xx"], attr) if o[1] == "ok" and "Xx" in o[2] else o[2]
+            if expect == 0:
+                ok = isinstance(found, Num) and found.const() == 0
+                exp = "0.0 (documented default)"
+            else:
+                ok = isinstance(found, Const) and found.v == "fcc"
+                exp = "'fcc' (documented default)"
+        chk.ob(rule, "EAMPotential.%s when the reference data has no %s for the species" % (attr, prop), ok, site=site, found=found,
+               expect=exp, key="%s|missing|%s" % (rule, prop))
 
 
 def reference_data_obligations(chk, P, rule):
